@@ -175,7 +175,8 @@ def judge_step(case: dict, hi: int, res: dict) -> tuple[list[dict], dict]:
             v("output-outside-outdir", "1", path=p, event={k: e[k] for k in ("op", "seq", "path") if k in e}, out_dir=out_rel)
             break
     pkg_files = {"S/work/proj/" + k for k in case["pkg"]["files"]}
-    strays = [k for k, ent in res.get("root_tree", {}).items() if "sha" in ent and k not in pkg_files and ".mypy_cache" not in k.split("/")]
+    strays = [k for k, ent in res.get("root_tree", {}).items()
+              if "sha" in ent and k not in pkg_files and ".mypy_cache" not in k.split("/") and not k.startswith(("decoy_pkg/", "decoy_file/"))]
     if strays:
         v("file-created-outside-outdir", "1", path=strays[0], strays=strays[:5], out_dir=out_rel)
     if not res.get("src_unchanged", True):
